@@ -612,7 +612,7 @@ func (c *cenv) call(x *CCall) (cval, error) {
 			return cval{e.slenI(a[0].s), "ISort", types.Typ[types.Int]}, nil
 		case "Ref":
 			e.harr("MapLen", "(Array Ref "+e.isort()+")")
-			return cval{fmt.Sprintf("(select %s %s)", e.hnameIn("MapLen", c.st), a[0].s), "ISort", types.Typ[types.Int]}, nil
+			return cval{fmt.Sprintf("(ite (= %s 0) %s (select %s %s))", a[0].s, e.ilit(0), e.hnameIn("MapLen", c.st), a[0].s), "ISort", types.Typ[types.Int]}, nil
 		}
 		return cval{}, fmt.Errorf("len of %s", a[0].sort)
 	case "cap":
@@ -855,6 +855,37 @@ func (c *cenv) call(x *CCall) (cval, error) {
 		arr := "G_" + x.Fn
 		e.harr(arr, "(Array Ref Bool)")
 		return cval{fmt.Sprintf("(select %s %s)", e.hnameIn(arr, c.st), a[0].s), "Bool", nil}, nil
+	case "ncalls":
+		// number of calls of the named function made so far by this activation
+		if len(x.Args) != 1 {
+			return cval{}, fmt.Errorf("ncalls(\"callee key\")")
+		}
+		lit, ok := x.Args[0].(*CLit)
+		if !ok || lit.Kind != "string" {
+			return cval{}, fmt.Errorf("ncalls: argument must be a string literal")
+		}
+		arr := "G_n:" + lit.Val
+		if !e.countKeys[lit.Val] {
+			return cval{}, fmt.Errorf("ncalls(%q): key not registered (engine error)", lit.Val)
+		}
+		e.harr(arr, "Int")
+		return cval{e.hnameIn(arr, c.st), "Int", nil}, nil
+	case "atlock":
+		// atlock(k, e): e evaluated in the state right after the k-th lock acquisition of this function
+		if len(x.Args) != 2 {
+			return cval{}, fmt.Errorf("atlock(k, e)")
+		}
+		lit, ok := x.Args[0].(*CLit)
+		if !ok || lit.Kind != "int" {
+			return cval{}, fmt.Errorf("atlock: first argument must be an ordinal")
+		}
+		k, _ := strconv.Atoi(lit.Val)
+		if k < 1 || k > len(e.lockStates) {
+			return cval{}, fmt.Errorf("atlock(%d): the function has acquired %d locks at this point", k, len(e.lockStates))
+		}
+		ch := c.child()
+		ch.st = e.lockStates[k-1]
+		return ch.term(x.Args[1])
 	case "heldset", "rheldset":
 		arr := "G_held"
 		if x.Fn == "rheldset" {
